@@ -44,7 +44,7 @@ PROPS = {
     'C06': {
         'run_vo': 'Retx/Run.vo', 'props_vo': 'Properties/C06.vo', 'level': 'proof', 'confirm': True,
         'classes': {1: 'too-many-copies', 2: 'copy-not-identical', 3: 'resend-too-early', 4: 'copy-after-stop',
-                    5: 'timely-response-not-returned', 6: 'success-without-response'},
+                    5: 'timely-response-not-returned', 6: 'success-without-response', 7: 'success-after-exhaustion'},
         'trusted': ['hook udp/client/export_verif.go (pending-entry stamp shifting)',
                     'in-memory udp/client.Session, barrier request and quiescence window used to wait for woken callers (harness/udpmem.go, c06.go)'],
         'assumptions': ['x/sync semaphore is FIFO (NSTART admission order)', 'virtual time: pending entries are aged by shifting their stamps, ticks are CheckExpirations(time.Now())'],
